@@ -12,6 +12,18 @@ def perm_pre(rng_seed):
     return f
 
 
+def sort_pre(descending=False):
+    """reference / batch -> the same rows in lexicographic order (a sorted export is a permutation like any other)"""
+    def f(x, t):
+        rows = sorted(x, reverse=descending)
+        return np.array(rows, dtype=float)
+    return f
+
+
+def pre_of(order, s):
+    return perm_pre(s) if order == "perm" else sort_pre(order == "desc")
+
+
 def run(ctx):
     q, rng = ctx.quick, ctx.rng
     # model level: the three specifications use a batch only through multiset-valued operators; checked on the
@@ -20,7 +32,7 @@ def run(ctx):
     ctx.model("MC_NNSP", "MC_NNSP.cfg")
     ctx.model("MC_HDM", "MC_HDM_db3.cfg")
     ctx.model("MC_Perm", "MC_Perm.cfg")       # every permutation of small batches: distances, trees, partitions unchanged
-    per = 5 if q else 40
+    per = 6 if q else 42
     full, dist_only = [], []
     for fam in ("HDDDM", "CDBD", "KdqTreeBatch", "NNDVI"):
         for i in range(per):
@@ -32,14 +44,15 @@ def run(ctx):
                 n0 = len(items[0])
                 items = [b[:n0] + b[: max(0, n0 - len(b))] for b in items]
             s = rng.randrange(10 ** 6)
-            pre = perm_pre(s)
+            order = ("perm", "asc", "desc")[(i // 2) % 3] if fam != "NNDVI" else "perm"
+            pre = pre_of(order, s)
             fb = lambda d, x, t, pre=pre: d.update(pre(x, t))
             if fam in ("HDDDM", "CDBD") and p["detect_batch"] == 2:
                 # thresholds of detect_batch=2 legitimately depend on row positions (bootstrap): distances only, while decisions agree
-                dist_only.append(P.two_runs(fam, p, p, items, s, "EqualWhileAgree", feed_b=fb, pre_b=pre, restrict=lambda nums: nums[:1]))
+                dist_only.append(P.two_runs(fam, p, p, items, s, "EqualWhileAgree", feed_b=fb, pre_b=pre, restrict=lambda nums: nums[:1], extra={"order": order}))
             else:
                 full.append(P.two_runs(fam, p, p, items, s, "Equal", feed_b=fb, pre_b=pre,
-                                       restrict=(lambda nums: nums) if fam != "NNDVI" else None))
+                                       restrict=(lambda nums: nums) if fam != "NNDVI" else None, extra={"order": order}))
     # large batches (thousands of rows) for the kdq-tree detector: row order must still not matter
     for i in range(1 if q else 4):
         p = P.default_params("KdqTreeBatch", rng)
@@ -48,8 +61,8 @@ def run(ctx):
         items = [[[c[0] + rng.randint(0, 40), c[1] + rng.randint(0, 40)] for _ in range(rng.randint(4200, 6000))] for _ in range(3)]
         s = rng.randrange(10 ** 6)
         srt = lambda x, t: np.array(sorted(x), dtype=float)         # B sees every batch sorted by its first feature
-        full.append(P.two_runs("KdqTreeBatch", p, p, items, s, "Equal", feed_b=lambda d, x, t, srt=srt: d.update(srt(x, t)), pre_b=srt))
-    rep = lambda ts: (lambda i: {"fam": ts[i]["fam"], "pa": ts[i]["pa"], "items": ts[i]["items"], "seed": ts[i]["seed"], "rel": ts[i]["cfg"]["rel"]})
+        full.append(P.two_runs("KdqTreeBatch", p, p, items, s, "Equal", feed_b=lambda d, x, t, srt=srt: d.update(srt(x, t)), pre_b=srt, extra={"order": "asc"}))
+    rep = lambda ts: (lambda i: {"fam": ts[i]["fam"], "pa": ts[i]["pa"], "items": ts[i]["items"], "seed": ts[i]["seed"], "rel": ts[i]["cfg"]["rel"], "order": ts[i].get("order", "perm")})
     # NNDVI's tag is a digest of the retained reference IN ROW ORDER: blank it (the permuted run retains permuted rows)
     for t in full:
         if t["fam"] == "NNDVI":
@@ -65,7 +78,7 @@ def run(ctx):
 
 def replay(ctx, bundle):
     r = bundle["replay"]
-    pre = perm_pre(r["seed"])
+    pre = pre_of(r.get("order", "perm"), r["seed"])
     fb = lambda d, x, t: d.update(pre(x, t))
     restrict = (lambda nums: nums[:1]) if r["rel"] == "EqualWhileAgree" else None
     t = P.two_runs(r["fam"], r["pa"], r["pa"], r["items"], r["seed"], r["rel"], feed_b=fb, pre_b=pre, restrict=restrict)
